@@ -93,7 +93,7 @@ def oracle(obsfile, cfg, env_extra=None):
 def write_impl_cfg():
     p = os.path.join(SPECS, "Exchange", "OracleImplRun.cfg")
     with open(p, "w") as f:
-        f.write("CONSTANTS MaxScript = 0 MaxN = 99 Dev = %s\nINIT FileInit\nNEXT ImplNext\nINVARIANT JudgeImpl\nCHECK_DEADLOCK FALSE\n" % DEVCODE)
+        f.write("CONSTANTS MaxScript = 0 MaxPause = 0 MaxN = 99 Dev = %s\nINIT FileInit\nNEXT ImplNext\nINVARIANT JudgeImpl\nCHECK_DEADLOCK FALSE\n" % DEVCODE)
     return "OracleImplRun.cfg"
 
 
@@ -133,6 +133,125 @@ def run_budget(pid, tier, seed):
                "rule": "every link tree with <= %d visits (plain depths) x requestor store {empty, full, full minus one} x responder store {full, full minus one} x budget 1..N+2 "
                        "x 8 placements (requestor/responder, global option / per-request hook / both with either smaller); judged by ExchangeOracle.tla C07OK" % (4 if tier == "quick" else 5)}
         return v.finish(cov, ["TLC", "a missing block still uses up one unit of go-ipld-prime's link budget: runs are accepted under either reading of 'blocks needed' (link visits / blocks loaded)"])
+    finally:
+        shutil.rmtree(tmp, ignore_errors=True)
+
+
+# deviations of the code as found that concern pause / resume (the ones still in /repo are listed in known-findings.txt)
+DEVPAUSE = '{"SkipCount", "StaleQueueOnResume", "InFlightOldIncarnation"}'
+
+
+def run_pause(pid, tier, seed):
+    """C06: Exchange.tla with Pause/Resume (MaxPause) checked for Complete; every enumerated case x side x way x block index x
+    resume timing run on real nodes next to the uninterrupted run of the same case."""
+    v = Verdict(pid, tier, seed, "model_checking")
+    tmp = tempfile.mkdtemp(prefix="vpause-")
+    try:
+        dcfg = "ExchPause3.cfg" if tier == "quick" else "ExchPause4.cfg"
+        r = tlc_must_pass(run_tlc("Exchange", "Exchange.tla", dcfg, workers=NCPU, timeout=3000), dcfg)
+        states, trans = r.distinct, r.generated
+        for cfg, what in (("ExchPauseStale3.cfg", "StaleQueueOnResume"), ("ExchPauseInFlight3.cfg", "InFlightOldIncarnation")):
+            d = run_tlc("Exchange", "Exchange.tla", cfg, workers=NCPU, timeout=3000)
+            if d.violation not in ("Complete", "NoHang"):
+                raise Infra("deviation %s no longer breaks Complete / NoHang in Exchange.tla with pauses: the model has become vacuous\n%s" % (what, d.out[-1500:]))
+        rng = random.Random(seed)
+        base, cres = tlc_cases(3 if tier == "quick" else 4, tmp)
+        states += cres.distinct
+        # pauses only matter for exchanges that use the network and have more than one block to go
+        base = [c for c in base if c["n"] >= 2]
+        base += random_cases(seed + 7, 60 if tier == "quick" else 600, 8)
+        # a responder that lacks the root answers content-not-found, which races with the requestor's own missing-block report
+        # in the uninterrupted run already (C02 does not apply there either): such cases have no single result to preserve
+        base = [c for c in base if 1 in c["sr"]]
+        for c in base:
+            for k, dv in (("userSkip", 0), ("ignore", []), ("keyed", False), ("adv", False), ("script", [])):
+                c.setdefault(k, dv)
+        variants = []
+        for bi, c in enumerate(base):
+            for side in ("req", "resp"):
+                for via in ("hook", "api"):
+                    for at in range(1, c["n"] + 1):
+                        for resume in (("quiet", "now", "held") if side == "req" else ("quiet", "now")):
+                            variants.append((bi, side, via, at, resume))
+            # both sides: the responder pauses by hook, then the requestor pauses through the API while it waits; resumes in either order
+            for at in range(1, c["n"] + 1):
+                for resume in ("reqfirst", "respfirst"):
+                    variants.append((bi, "both", "hook", at, resume))
+        rng.shuffle(variants)
+        limit = 1800 if tier == "quick" else 40000
+        variants = variants[:limit]
+        used = sorted({bi for bi, *_ in variants})
+        cases = [dict(base[bi]) for bi in used]                 # uninterrupted runs first
+        pos = {bi: i for i, bi in enumerate(used)}
+        for bi, side, via, at, resume in variants:
+            c = dict(base[bi])
+            c.update({"pauseSide": side, "pauseVia": via, "pauseAt": at, "resume": resume})
+            cases.append(c)
+        obsfile = run_cases(cases, tmp, "pause")
+        lines = [json.loads(l) for l in open(obsfile)]
+        judged = os.path.join(tmp, "pause-judge.ndjson")
+        nb = len(used)
+        with open(judged, "w") as f:
+            for i, rec in enumerate(lines[nb:]):
+                bi = variants[i][0]
+                rec["baseline"] = lines[pos[bi]]["obs"]
+                rec["case"]["id"] = i + 1
+                f.write(json.dumps(rec) + "\n")
+        verdicts, ores = oracle(judged, "OraclePause.cfg")
+        jl = open(judged).read().splitlines()
+        states += ores.distinct
+        if len(verdicts) != len(variants):
+            raise Infra("oracle judged %d of %d cases" % (len(verdicts), len(variants)))
+        # an uninterrupted run that itself ends in an error (C02's recorded finding on the skip count) is nothing to compare with
+        clean = lambda b: not b["otherErrs"] and not b["hang"]
+        n_unclean = sum(1 for l in jl if not clean(json.loads(l)["baseline"]))
+        bad_ids = sorted(x["id"] for x in verdicts if not x["c06"] and clean(json.loads(jl[x["id"] - 1])["baseline"]))
+        took = sum(1 for x in verdicts if x["took"])
+        explained = {}
+        if bad_ids:
+            sub = os.path.join(tmp, "pause-bad.ndjson")
+            with open(sub, "w") as f:
+                for i in bad_ids:
+                    f.write(jl[i - 1] + "\n")
+            cfgp = os.path.join(SPECS, "Exchange", "OraclePauseImplRun.cfg")
+            with open(cfgp, "w") as f:
+                f.write("CONSTANTS MaxScript = 0 MaxPause = 1 MaxN = 99 Dev = %s\nINIT FileInit\nNEXT ImplNext\nINVARIANT JudgeImpl\nCHECK_DEADLOCK FALSE\n" % DEVPAUSE)
+            try:
+                impl, ires = oracle(sub, "OraclePauseImplRun.cfg")
+            finally:
+                os.remove(cfgp)
+            states += ires.distinct
+            trans += ires.generated
+            for x in impl:
+                if x["match"] and x["dev"]:
+                    # every resumed request carries the count of blocks traversed so far, so the skip-count deviation (recorded
+                    # under C02) accompanies any other one: it is named only when it is the sole explanation
+                    ds = [d for d in x["dev"] if d != "SkipCount"] or x["dev"]
+                    explained.setdefault(x["id"], set()).add("+".join(sorted(ds)))
+        for i in bad_ids:
+            rec = json.loads(jl[i - 1])
+            o, c = rec["obs"], rec["case"]
+            devs = explained.get(i)
+            if o["blocksWhilePaused"]:
+                sig = "blocks-sent-while-paused"
+            elif devs:
+                # the smallest set of named deviations under which the model of the code reproduces this observation
+                sig = "DEV_" + sorted(devs, key=lambda d: (d.count("+"), d))[0]
+            else:
+                sig = "unexplained:%s:%s" % (c["pauseSide"], "hang" if o["hang"] else "fatal" if o["otherErrs"] else "result-differs")
+            v.violation(sig, "pause on the %s side via %s at block %d, resume %s, case %s: observation %s; uninterrupted run: %s" % (
+                c["pauseSide"], c["pauseVia"], c["pauseAt"], c["resume"], json.dumps({k: c[k] for k in ("n", "par", "dep", "cid", "sl", "sr")}),
+                json.dumps(o)[:300], json.dumps(rec["baseline"])[:200]), rec)
+        cov = {"states": states, "transitions": trans, "traces_validated_against_impl": len(cases),
+               "samples": [json.loads(jl[len(jl) // 2])["case"]], "exhaustive": False,
+               "base_cases": len(base), "pause_variants_run": len(variants), "pause_took_effect": took, "nonconforming": len(bad_ids), "baseline_not_clean": n_unclean,
+               "rule": "every initial state of Exchange.tla with 2..%d link visits plus seeded random trees, crossed with pause side (requestor / responder / responder then requestor) x way (block-hook action / "
+                       "Pause call made during the hook) x block index 1..N x resume timing (after the network is quiet / at once / with the old incarnation's messages held back until the new request "
+                       "is out); a seeded sample of %d variants, each run on real GraphSync nodes and compared with the uninterrupted run of the same case" % (3 if tier == "quick" else 4, limit)}
+        if took < len(variants) // 4:
+            raise Infra("the pause took effect in only %d of %d runs: harness out of date" % (took, len(variants)))
+        return v.finish(cov, ["TLC", "verifnet", "an API pause may take effect one or more blocks later or not at all (exchange already over): such runs still must give the uninterrupted result",
+                              "'no block data while paused' is measured from 25 ms of network quiet after the response is reported paused until the resume, responder-side pauses with resume 'quiet' only"])
     finally:
         shutil.rmtree(tmp, ignore_errors=True)
 
@@ -241,6 +360,8 @@ def run(pid, tier, seed):
         return run_adv(pid, tier, seed)
     if pid == "C07":
         return run_budget(pid, tier, seed)
+    if pid == "C06":
+        return run_pause(pid, tier, seed)
     v = Verdict(pid, tier, seed, "model_checking")
     tmp = tempfile.mkdtemp(prefix="vexch-")
     try:
